@@ -142,6 +142,8 @@ type StreamExpect struct {
 	Prod        bool
 	// FailBlock: block at which a deterministic failure is expected (nil = none)
 	FailBlock *uint64
+	// OpenEnd: for open-ended requests (stop 0), the exclusive end of what the chain could deliver
+	OpenEnd uint64
 }
 
 // CheckStream checks a fork-free response stream against R0. prop is the property to attribute to.
@@ -222,6 +224,9 @@ func CheckStream(prop string, pkg *PkgDef, ref *Ref, res *RunResult, ex StreamEx
 	}
 	// completeness
 	end := ex.Stop
+	if end == 0 {
+		end = ex.OpenEnd
+	}
 	if ex.FailBlock != nil && *ex.FailBlock < end {
 		end = *ex.FailBlock
 	}
